@@ -329,7 +329,7 @@ theorem vote_branch (S : Setup N vals f observe frameRoots) {el : Election} (js 
   have hnrRoot : N.IsRoot nr.id nr.frame := ((S.roots _ nr).1 hroot).2.1
   by_cases hfr : Gen.Election.firstRound (Gen.Election.round nr.frame el.frameToDecide) = true
   · -- round 1
-    have hp := hfirst hfr
+    have hp := hfirst (by rw [← js.ftd]; exact hfr)
     have hk : nr.frame = f + 1 := by rw [hprev] at hp; omega
     have hvf : ∀ s, voteOf observe frameRoots el nr s = firstVote (seenMap (seenRoots observe frameRoots nr)) s := by
       intro s; unfold voteOf; rw [if_pos hfr]
@@ -340,7 +340,7 @@ theorem vote_branch (S : Setup N vals f observe frameRoots) {el : Election} (js 
       exact first_vote_facts S nr (by rw [← hk]; exact hnrRoot) hp s
   · -- later rounds
     have hfr' : Gen.Election.firstRound (Gen.Election.round nr.frame el.frameToDecide) = false := by simpa using hfr
-    have h2 := hlater hfr'
+    have h2 := hlater (by rw [← js.ftd]; exact hfr')
     obtain ⟨j, hj⟩ : ∃ j, nr.frame = f + (j + 1) := ⟨nr.frame - f - 1, by omega⟩
     have hj1 : 1 ≤ j := by omega
     have hp : Gen.Election.prevFrame nr.frame = f + j := by rw [hprev]; omega
